@@ -153,7 +153,7 @@ def gen_cases(rng, tier):
             for i in range(max(3, (2 * per) // 3) if heavy else per):
                 # two thirds of the cases with explicit initial sets where the entry point takes them: that is where labels and insertion order enter
                 modes_i = tuple(m for m in e.modes if m == 'sets') if (i % 3 and 'sets' in e.modes) else e.modes
-                c = OC.gen_case(rng, name, full, e.sir, isolated=e.isolated and rng.random() < 0.3, modes=modes_i, nmax=e.nmax, discrete=bool(e.discrete))
+                c = OC.gen_case(rng, name, full, e.sir, isolated=e.isolated and rng.random() < 0.35, force_iso=True, modes=modes_i, nmax=e.nmax, discrete=bool(e.discrete))
                 if c['gamma'] == '0' and c['tau'] != '0':
                     c['gamma'] = '1'        # exhaustion of S makes the closures 0/0 up to rounding (see c06.curve_domain)
                 if c['tau'] == '0' and c['gamma'] == '0' and e.scalar:
